@@ -553,6 +553,14 @@ pub(crate) mod verif_local_braces {
         } else {
             None
         };
+        // `rewrite_closure` never puts a block around a block
+        let with_block = |shape: Shape| {
+            if let ast::ExprKind::Block(..) = inner.kind {
+                Err(RewriteError::Unknown)
+            } else {
+                rewrite_closure_with_block(inner, &prefix, context, shape)
+            }
+        };
         Ok(ClosureProbe {
             inner,
             forced: is_block_closure_forced(context, inner),
@@ -560,8 +568,8 @@ pub(crate) mod verif_local_braces {
             requires_semi: expr_requires_semi_to_be_stmt(left_most_sub_expr(inner)),
             inner_rw: inner.rewrite_result(context, body_shape),
             expr: rewrite_closure_expr(inner, &prefix, context, body_shape),
-            with_block_outer: rewrite_closure_with_block(inner, &prefix, context, shape),
-            with_block_body: rewrite_closure_with_block(inner, &prefix, context, body_shape),
+            with_block_outer: with_block(shape),
+            with_block_body: with_block(body_shape),
             block,
             prefix,
         })
